@@ -123,52 +123,98 @@ def check_type(P, ctx, T):
                     # the returned expression is the call itself (modulo conversions), not a combination with something else
                     good = bool(rets) and all(x['expr'] is not None and ir.canon(x['expr']) == ir.canon(c) for x in rets) and n['kind'] == 'ret'
                 ctx.check(good, 'C20.delegation', key + ':result', site(fn), 'the value returned is %s\'s result' % lib)
-    # ---- close-once
+    # ---- close-once, evaluated (cint): the close function, the destructor and open, for an open / a closed object and a close call
+    # that succeeds / reports an error.  The stream is disposed of by fclose/pclose whatever they return, so after the call the handle
+    # must be NULL on *every* exit, raising ones included; nothing closes a stream that is not open; open on an open object closes the old
+    # stream first.
+    from . import cint
     closef = P.slot(T, 'Stream', 'sclose')
-    fn = P.fn(closef)
-    g = P.cfg(fn)
-    H = handle_expr(fn, field)
-    cl = [n for n in g.live() if n['expr'] is not None and any(ir.callee_name(c) == closer for c in ir.calls(n['expr']))]
-    nulls = [n for n in g.live() if n['kind'] == 'stmt' and n['expr'] is not None and ir.top_nocast(n['expr'])[0] == 'assign' and
-             ir.canon(ir.top_nocast(n['expr'])[2]) in H and ir.is_null(ir.top_nocast(n['expr'])[3])]
-    ok = len(cl) == 1 and bool(nulls) and g.must_pass(g.exit, [x['id'] for x in nulls], start=cl[0]['id'])
-    ctx.check(ok, 'C20.close-once', closef + ':handle-cleared', site(fn),
-              'after %s every normal exit passes `handle = NULL` (a second close cannot reach the stale stream)' % closer)
-    # destructor closes only when open
     delf = P.slot(T, 'New', 'destruct')
-    fn = P.fn(delf)
-    g = P.cfg(fn)
-    H = handle_expr(fn, field)
-    calls = [n for (n, c) in g.nodes_calling(closef)]
-
-    def nn_pred(c, n):
-        if c[0] == 'bin' and c[1] in ('==', '!=') and ((c[2] == ('int', 0) and c[3] in H) or (c[3] == ('int', 0) and c[2] in H)):
-            return c[1] == '=='
-        return None
-    guards = guards_of(g, nn_pred)
-    ok = len(calls) == 1 and any(g.must_pass(calls[0]['id'], through_edges=[(gd[0]['id'], not gd[1])]) for gd in guards)
-    ok = ok and all(g.must_pass(g.exit, [calls[0]['id']], start=succ_of(gd[0], not gd[1])) for gd in guards)
-    ctx.check(ok, 'C20.close-once', delf + ':closes-iff-open', site(fn), 'the destructor closes the stream exactly when it is open')
-    # open closes a previous handle first, stores the new one, raises IOError on failure
     openf = P.slot(T, 'Stream', 'sopen')
-    fn = P.fn(openf)
-    g = P.cfg(fn)
-    H = handle_expr(fn, field)
-    guards = guards_of(g, nn_pred)
-    opens = [n for n in g.live() if n['expr'] is not None and any(ir.callee_name(c) == opener for c in ir.calls(n['expr']))]
-    closes = [n for (n, c) in g.nodes_calling(closef)]
-    ok = len(opens) == 1 and len(closes) == 1 and len(guards) >= 1
-    if ok:
-        gd = guards[0]
-        ok = g.must_pass(opens[0]['id'], [closes[0]['id']], through_edges=[(gd[0]['id'], gd[1])]) and \
-            g.must_pass(closes[0]['id'], through_edges=[(gd[0]['id'], not gd[1])])
-        e = ir.top_nocast(opens[0]['expr'])
-        ok = ok and e[0] == 'assign' and ir.canon(e[2]) in H
-    ctx.check(ok, 'C20.close-once', openf + ':reopen-closes-first', site(fn),
-              'opening an already open object closes the previous stream before %s and stores the new handle' % opener)
-    fails = [gd for gd in guards_of(g, nn_pred) if gd[1] is True and succ_of(gd[0], True) is not None and throw_only(g, succ_of(gd[0], True))
-             and opens and gd[0]['id'] in g.reach_from(opens[0]['id'])]
-    ctx.check(bool(fails), 'C20.close-once', openf + ':open-failure', site(fn), 'a failed %s raises IOError' % opener)
+    HND, NEWH = 70000, 71000
+
+    def run(fname, handle, err, open_ok=True, extra=()):
+        fn_ = P.fn(fname)
+        ev_ = []
+
+        def call(nm, e, it):
+            if nm == closer:
+                ev_.append(('close', it.ev(e[2][0])))
+                return err
+            if nm == opener:
+                ev_.append(('open',))
+                return NEWH if open_ok else 0
+            if nm == 'freopen':
+                # C: the stream is closed whatever happens; on success the same FILE object is the new stream, on failure it is gone
+                st_ = it.ev(e[2][2])
+                ev_.append(('close', st_))
+                ev_.append(('open',))
+                return st_ if open_ok else 0
+            if nm == 'c_str':
+                return 7300
+            raise cint.NoEval('call %s' % nm)
+        atoms = {('global', 'NULL'): 0, ('elem', 'self', 0, field): handle}
+        it = cint.CInt(P, fn_, atoms=atoms, call=call, recurse=True, strict=True)
+        it.atoms = atoms
+        r = it.run([('ep', 'self', 0)] + list(extra))
+        return r, ev_, atoms.get(('elem', 'self', 0, field))
+    res = {'close': None, 'del': None, 'reopen': None, 'openfail': None}
+    unsup = None
+    for handle in (0, HND):
+        for err in (0, 1):
+            lab = '%s object, %s %s' % ('open' if handle else 'closed', closer, 'reports an error' if err else 'succeeds')
+            # close
+            r, ev_, h = run(closef, handle, err)
+            if r[0] == 'stuck':
+                unsup = unsup or 'close, %s: %s' % (lab, r[1])
+            elif handle == 0:
+                if not (r[0] == 'term' and r[1] == ('throw', 'IOError') and not ev_):
+                    res['close'] = res['close'] or '%s: %s' % (lab, 'a stream is closed' if ev_ else 'no IOError')
+            else:
+                okc = ev_ == [('close', HND)] and h == 0 and ((r[0] == 'ret') if not err else (r[0] == 'term' and r[1] == ('throw', 'IOError')))
+                if not okc:
+                    res['close'] = res['close'] or '%s: calls %s, the handle is %s afterwards, %s' % (lab, ev_ or 'nothing', 'NULL' if h == 0 else 'still set (the next close hits the disposed stream)',
+                                                                                                   'returns' if r[0] == 'ret' else 'raises %s' % (r[1][1] if isinstance(r[1], tuple) else r[1]))
+            # destructor
+            r, ev_, h = run(delf, handle, err)
+            if r[0] == 'stuck':
+                unsup = unsup or 'destructor, %s: %s' % (lab, r[1])
+            else:
+                want = [('close', HND)] if handle else []
+                if ev_ != want or h != 0:
+                    res['del'] = res['del'] or '%s: calls %s, the handle is %s afterwards' % (lab, ev_ or 'nothing', 'NULL' if h == 0 else 'still set')
+            # open
+            r, ev_, h = run(openf, handle, err, True, [7400, 7500])
+            if r[0] == 'stuck':
+                unsup = unsup or 'open, %s: %s' % (lab, r[1])
+            else:
+                if handle and err:
+                    okc = ev_[:1] == [('close', HND)] and h in (0, NEWH) and (r[0] == 'term' or ev_ == [('close', HND), ('open',)])
+                else:
+                    okc = ev_ == ([('close', HND)] if handle else []) + [('open',)] and h in (NEWH, HND if handle else NEWH) and h != 0 and r[0] == 'ret'
+                if not okc:
+                    res['reopen'] = res['reopen'] or '%s: calls %s, the handle is %s afterwards' % (lab, ev_ or 'nothing', {0: 'NULL', NEWH: 'the new stream', HND: 'the old stream'}.get(h, h))
+    for handle in (0, HND):
+        r, ev_, h = run(openf, handle, 0, False, [7400, 7500])
+        if r[0] == 'stuck':
+            unsup = unsup or 'open failing: %s' % r[1]
+        elif not (r[0] == 'term' and r[1] == ('throw', 'IOError')):
+            res['openfail'] = res['openfail'] or 'a failed %s does not raise IOError' % opener
+        elif h != 0:
+            res['openfail'] = res['openfail'] or 'after a failed %s on an %s object the handle is %s: the previous stream was closed on the way, the next operation uses a disposed stream' % (
+                opener, 'open' if handle else 'unopened', 'the old stream' if h == HND else h)
+    for key, fname, what in (('close', closef, closef + ':handle-cleared'), ('del', delf, delf + ':closes-iff-open'), ('reopen', openf, openf + ':reopen-closes-first'),
+                             ('openfail', openf, openf + ':open-failure')):
+        fn_ = P.fn(fname)
+        ctx.fn(fn_)
+        text = {'close': 'after %s the handle is NULL on every exit, raising ones included (a second close cannot reach the disposed stream); a closed object raises IOError' % closer,
+                'del': 'the destructor closes the stream exactly when it is open, and leaves no handle behind',
+                'reopen': 'opening an already open object closes the previous stream before %s and stores the new handle' % opener,
+                'openfail': 'a failed %s raises IOError' % opener}[key]
+        if unsup and not res[key]:
+            ctx.undecided('C20.close-once', what, site(fn_), 'leaves the evaluated fragment: ' + unsup)
+        else:
+            ctx.check(res[key] is None, 'C20.close-once', what, site(fn_), text, [res[key]] if res[key] else None)
     # with-block: Start.stop is the close function
     ctx.check(P.slot(T, 'Start', 'stop', required=False) == closef, 'C20.with', T + ':stop-is-close', site(P.fn(closef)),
               'leaving a with block (Start.stop) closes the stream: the Start.stop slot holds the close function')
